@@ -364,8 +364,10 @@ class Engine:
         if c.startswith('{alloc') or c.startswith('{transmute('):
             return Opaque('alloc', c)
         # named constant
+        ov = getattr(self, 'const_overrides', None)
+        if ov and c.split('::')[-1] in ov: return ov[c.split('::')[-1]]
         k = self.mir.consts.get(c)
-        if k is None and re.fullmatch(r'[\w:<> ,&\[\];\']+', c):
+        if k is None and re.fullmatch(r'[\w:<> ,&\[\];\'{}#]+', c):
             k = self.mir.consts.get(strip_generics(c).split('::')[-1]) if re.fullmatch(r'[A-Z_][A-Z0-9_]*', c.split('::')[-1]) else None
         if k is not None:
             if k[0] == 'lit': return self.const_value(None, k[1])
@@ -387,6 +389,11 @@ class Engine:
         tn = strip_generics(re.sub(r'<.*>$', '', ty.strip(), flags=re.S)).split('::')[-1]
         if tn in self.src.structs and not self.src.structs[tn]: return Struct(tn, [])
         if ty.strip() == '()': return mk_unit()
+        t = ty.strip()
+        if t.startswith('(') and t.endswith(')') and ',' in t:
+            # a tuple none of whose components was ever assigned: all components are zero-sized
+            parts = [self.zst_value(x) for x in scan_split(t[1:-1]) if x.strip()]
+            return Struct('()', [p if p is not None else Opaque('zst', x) for p, x in zip(parts, scan_split(t[1:-1]))])
         return None
 
     def operand(self, f, fr, op):
@@ -795,6 +802,8 @@ class Engine:
             if ch.v is None:
                 if getattr(co.f[0].v, 'sender_dropped', False) or ch in getattr(self, 'dropped_senders', ()):
                     return Enum('Poll', 0, [Err(Struct('Canceled', []))])
+                ph = getattr(self, 'pending_hook', None)
+                if ph: ph('oneshot')
                 return Enum('Poll', 1)
             return Enum('Poll', 0, [Ok(ch.v)])
         if isinstance(co, (Struct, Enum)) and co.name != 'coroutine':
@@ -918,6 +927,7 @@ class Engine:
                 if self.branch(inr): return Ok(self.cast_int(u, src, t))
                 return Err(Struct('TryFromIntError', []))
             return Ok(u) if lo <= u <= hi else Err(Struct('TryFromIntError', []))
+        if t in ('io::Error', 'Error') and isinstance(u, Opaque) and u.what == 'io::ErrorKind': return Opaque('io::Error', 'from-kind')
         if t.startswith('Box<dyn') or t.startswith('Arc<dyn'): return Ref(Cell(v), 'Box')
         if t.startswith('Option<'): return Some(v)
         if t.startswith('Arc<') or t.startswith('Box<') or t.startswith('Rc<'):
@@ -1016,7 +1026,9 @@ class Engine:
             if k == 'goto': bb = t[1]; continue
             if k == 'return':
                 c = fr.get('_0')
-                return c.v if c is not None and c.v is not None else mk_unit()
+                if c is not None and c.v is not None: return c.v
+                z = self.zst_value(f.ret) if f.ret else None
+                return z if z is not None else mk_unit()
             if k == 'switch':
                 v = self.operand(f, fr, t[1]); nxt = None
                 if is_sym(v):
